@@ -117,6 +117,13 @@ func ecRunCurve(t *Trace) *Mismatch {
 				return ecNote(mm, "ScalarMult")
 			}
 			reg[1] = ecXY{x, y}
+		case "multreg": // r_a := [k] r_a; the RESULT OBJECT of the library stays in the register (its internal form matters later)
+			ra := st.Int("a")
+			x, y := c.ScalarMult(reg[ra].x, reg[ra].y, st.Hex("k"))
+			if mm := DiffStr(i, ecToEnc(x, y), st.Str("exp")); mm != nil {
+				return ecNote(mm, "ScalarMult")
+			}
+			reg[ra] = ecXY{x, y}
 		case "combined":
 			a, b := st.Hex("a"), st.Hex("b")
 			if cm, ok := c.(combinedMulter); ok {
@@ -282,6 +289,16 @@ func ecRunPoint(t *Trace) *Mismatch {
 				return mm
 			}
 			reg[1] = fresh
+		case "multreg": // r_a := [k] r_a, keeping the library's result object (e.g. the infinity that ScalarMult(Q, 0) returns)
+			ra := st.Int("a")
+			res, err := verifhook.NewSM2P256Point().ScalarMult(reg[ra], st.Hex("k"))
+			if mm := DiffErr(i, err, false); mm != nil {
+				return ecNote(mm, "ScalarMult")
+			}
+			if mm := check(i, res, st.Str("exp"), "ScalarMult into a fresh point"); mm != nil {
+				return mm
+			}
+			reg[ra] = res
 		case "combined":
 			a, b := st.Hex("a"), st.Hex("b")
 			if len(a) == 32 && len(b) == 32 {
@@ -476,7 +493,7 @@ func ecRunKeys(t *Trace) *Mismatch {
 				}
 			}
 			r1 = exp
-		case "combined", "add", "double":
+		case "combined", "add", "double", "multreg":
 			if st.Str("op") == "combined" || st.Int("a") == 1 {
 				r1 = st.Hex("exp")
 			}
